@@ -35,6 +35,16 @@ def build():
     return vlib.build_harness(HARNESS, ["c06_intmath.cpp"], libs=())
 
 
+def tlc_retry(*a, **kw):
+    """vlib.tlc, repeated once if the JVM died (the box is shared: OOM kills and timeouts under load
+    are infrastructure noise, not verdicts)"""
+    try:
+        return vlib.tlc(*a, **kw)
+    except vlib.Infra as e:
+        vlib.log("TLC run failed, retrying once: %s" % str(e).splitlines()[0][:200])
+        return vlib.tlc(*a, **kw)
+
+
 # ------------------------------------------------------------------ model checks of the spec
 def model_checks(ctx, thorough):
     if os.environ.get("VERIF_SKIP_MC") == "1" and os.environ.get("VERIF_EVIDENCE_DIR"):
@@ -48,10 +58,16 @@ def model_checks(ctx, thorough):
     guards += [("IntMathLaws", "MC_IntMath_bug.cfg", "CeilLaw"), ("IntMathWideLaws", "MC_IntMathWide_bug.cfg", "NatLaws")]
 
     def mc(j):
-        return vlib.tlc_mc(ctx, j[0], j[1], workers=2, timeout=1500)
+        try:
+            return vlib.tlc_mc(ctx, j[0], j[1], workers=2, timeout=1500)
+        except vlib.Infra as e:
+            if "model check of" in str(e):
+                raise                      # a genuine spec-level failure
+            vlib.log("TLC run failed, retrying once: %s" % str(e).splitlines()[0][:200])
+            return vlib.tlc_mc(ctx, j[0], j[1], workers=2, timeout=1500)
 
     def guard(g):
-        r = vlib.tlc(g[0], g[1], workers=1, timeout=900)
+        r = tlc_retry(g[0], g[1], workers=1, timeout=900)
         if g[2] not in r.invariant_violated:
             raise vlib.Infra("vacuity guard: %s did not violate %s:\n%s" % (g[1], g[2], "\n".join(r.out.splitlines()[-30:])))
         return {"cfg": g[1], "violates": g[2]}
@@ -134,7 +150,7 @@ def judge(ctx, recs, module_cfg, tag, chunk_bytes=2500000):
             for i in chunks[k]:
                 f.write(recs[i][1])
                 f.write("\n")
-        r = vlib.tlc(module_cfg[0], module_cfg[1], workers=1, env={"TRACE": p}, timeout=2400, xmx="3g", tag=module_cfg[0] + "_j")
+        r = tlc_retry(module_cfg[0], module_cfg[1], workers=1, env={"TRACE": p}, timeout=2400, xmx="3g", tag=module_cfg[0] + "_j")
         v = vlib._verdict_lines(r.out)
         if "VERDICT" not in v:
             raise vlib.Infra("judge %s gave no verdict on %s (rc=%d):\n%s" % (module_cfg[0], p, r.rc, "\n".join(r.out.splitlines()[-40:])))
@@ -274,9 +290,12 @@ def run(ctx):
         raise vlib.Infra("the harness recorded nothing")
     ctx.evaluations += count(ctx, recs)
     sample(ctx, recs)
-    selftest(ctx, recs, JUDGE, "c06self", corrupt_c06, 40)
     bads = judge(ctx, recs, JUDGE, "c06")
     report(ctx, bads, PID)
+    if not bads:
+        # vacuity guard of the judge; it presupposes that the recorded results are right, so it only runs
+        # when the judge accepted all of them (otherwise the run ends in a VIOLATION anyway)
+        selftest(ctx, recs, JUDGE, "c06self", corrupt_c06, 40)
     ctx.traces_validated += ctx.extra.get("judge_chunks", 0)
     ctx.extra["records"] = len(recs)
     ctx.exhaustive = False
